@@ -119,6 +119,25 @@ for ir in irs:
     for style in ("rest", "google", "numpydoc"):
         if attempt(cdd.docstring.emit.docstring, ir, docstring_format=style) is not None:
             done["emitted"] += 1
+# objects that are ALREADY in memory (the caller imported its own module): their string annotations are text of the analysed source and
+# stay text -- parsing the live function / class must not evaluate them
+live_dir = os.path.join(os.path.dirname(os.path.abspath(sys.argv[0])), "livepkg")
+os.makedirs(live_dir, exist_ok=True)
+sent_live = os.path.join(root, "sentinels", "S_live_annotation")
+open(os.path.join(live_dir, "live_mod.py"), "w").write(
+    "def live_fn(a: \"__import__('os').mkdir(%r)\" = 1, b: 'int' = 2) -> 'str':\n"
+    "    \"\"\"\n    Live function\n\n    :param a: the a\n\n    :param b: the b\n\n    :return: it\n    \"\"\"\n    return str(a)\n\n\n"
+    "class Live(object):\n    \"\"\"\n    Live class\n\n    :cvar x: the x\n    \"\"\"\n\n    x: \"__import__('os').mkdir(%r)\" = 5\n\n"
+    "    def __init__(self, n: \"__import__('os').mkdir(%r)\" = 3):\n        \"\"\"\n        Init\n\n        :param n: the n\n        \"\"\"\n        self.n = n\n"
+    % (sent_live, sent_live + "_cls", sent_live + "_init"))
+sys.path.insert(0, live_dir)
+try:
+    import live_mod
+    for obj, fn_ in ((live_mod.live_fn, cdd.function.parse.function), (live_mod.Live, cdd.class_.parse.class_)):
+        if attempt(fn_, obj) is not None:
+            done["parsed"] += 1
+except BaseException:
+    done["raised"] += 1
 # a route whose docstring carries a yml block: the block is data for the routes / OpenAPI parser
 import cdd.routes.parse.bottle
 sent = os.path.join(root, "sentinels", "S_yaml")
